@@ -131,7 +131,7 @@ package db
 // its page number.
 //@ func (*db.Database).openTable
 //@   props C01 C04 C08 C12
-//@   modifies * -M:S_db_KeyCol hdr_valid hdr_ps hdr_cookie
+//@   modifies * -M:S_db_KeyCol hdr_valid hdr_ps hdr_cookie jr_pos peer_state
 //@   requires db != nil
 //@   ensures [current] err == nil ==> r0 != nil && repr(r0, page, db.header.ChangeCounter) && db.header.ChangeCounter == cc_now && CACHE_OK(db) && !db.dirty
 //@   trusted-ensures err == nil ==> r0 != nil && iref(r0) != nil && pg(iref(r0)) == page && tleaf_wf(iref(r0))
@@ -336,7 +336,7 @@ package db
 
 //@ func (*db.Database).openIndex
 //@   props C02 C03 C08 C12 C13
-//@   modifies * -M:S_db_KeyCol hdr_valid hdr_ps hdr_cookie
+//@   modifies * -M:S_db_KeyCol hdr_valid hdr_ps hdr_cookie jr_pos peer_state
 //@   requires db != nil
 //@   ensures [current] err == nil ==> r0 != nil && repr(r0, page, db.header.ChangeCounter) && db.header.ChangeCounter == cc_now && CACHE_OK(db) && !db.dirty
 //@   trusted-ensures err == nil ==> r0 != nil && iref(r0) != nil && pg(iref(r0)) == page && ileaf_wf(iref(r0)) && iint_wf(iref(r0))
